@@ -1017,7 +1017,7 @@ func vfMqResidueCheckProfile(t *testing.T, property, profile string) {
 			var ops []string
 			if profile == "resume" {
 				if r.stalled && d.live != nil {
-					ops = []string{"sub", "unsub", "unsub", "end", "end"}
+					ops = []string{"unsub", "sub", "unsub", "unsub", "end"}
 				} else if d.live == nil {
 					ops = []string{"connect"}
 				} else {
